@@ -1015,6 +1015,7 @@ func (self *LockManager) ProcessLockData(command *protocol.LockCommand, lock *Lo
 			} else {
 				dataLen := currentLockData.GetValueOffset() + 4
 				data := make([]byte, dataLen+4)
+				data[0], data[1], data[2], data[3] = byte(dataLen), byte(dataLen>>8), byte(dataLen>>16), byte(dataLen>>24)
 				data[4], data[5] = protocol.LOCK_DATA_COMMAND_TYPE_SET, currentLockData.data[5]|protocol.LOCK_DATA_FLAG_VALUE_TYPE_NUMBER
 				copy(data[6:], currentLockData.data[6:])
 				data[valueOffset], data[valueOffset+1], data[valueOffset+2], data[valueOffset+3], data[valueOffset+4], data[valueOffset+5], data[valueOffset+6], data[valueOffset+7] = byte(incrValue), byte(incrValue>>8), byte(incrValue>>16), byte(incrValue>>24), byte(incrValue>>32), byte(incrValue>>40), byte(incrValue>>48), byte(incrValue>>56)
@@ -1262,6 +1263,7 @@ func (self *LockManager) ProcessRecoverLockData(lock *Lock) {
 				} else {
 					dataLen := currentData.GetValueOffset() + 4
 					data := make([]byte, dataLen+4)
+					data[0], data[1], data[2], data[3] = byte(dataLen), byte(dataLen>>8), byte(dataLen>>16), byte(dataLen>>24)
 					data[4], data[5] = protocol.LOCK_DATA_COMMAND_TYPE_SET, currentData.data[5]|protocol.LOCK_DATA_FLAG_VALUE_TYPE_NUMBER
 					copy(data[6:], currentData.data[6:])
 					data[valueOffset], data[valueOffset+1], data[valueOffset+2], data[valueOffset+3], data[valueOffset+4], data[valueOffset+5], data[valueOffset+6], data[valueOffset+7] = byte(incrValue), byte(incrValue>>8), byte(incrValue>>16), byte(incrValue>>24), byte(incrValue>>32), byte(incrValue>>40), byte(incrValue>>48), byte(incrValue>>56)
